@@ -35,7 +35,7 @@ CHECKS.update({
 CHECKS.update({
  'C03': dict(cat='translation_validation', ref='4/C03', tech='symbolic execution of Symbol.combine, build_model_definition LAGS/LEADS arithmetic and iter_periods over z3 integers (inductive merge step; rendered integers mapped back to terms); concrete reference classification per enumerated script',
    text='Three solver-decided obligations over unbounded integers: the merge algebra of Symbol.combine (inductive step over all 9x9 type pairs, so any number of mentions in any order), LAGS/LEADS = lags= if given else max(deepest lag, min_lags) in build_model_definition for 0..3(4) symbols, and iter_periods() default range = exactly the periods that hold the lags/leads (span length 0..4(6)). The classification/order of names per script is a concrete program-level assertion against an AST reference over the enumerated programs (no solver: the tokeniser is regex code).',
-   note='Trusted: symx; `type` shadowed in fsic.parser globals so symbolic ints report int; SInt.__format__ tokens. Program dimension enumerated. Named-period indexes outside.'),
+   note='Trusted: symx; `type` shadowed in fsic.parser globals so symbolic ints report int; SInt.__format__ tokens. Program dimension enumerated. Named-period indexes outside. Thorough tier: a second engine (crosshair check on xh/combine_contract.py, seven postconditions on the real Symbol.combine, each must be Confirmed over all paths) cross-checks the merge step; repeated builds with other options and NumPy-integer option values are concrete obligations.'),
  'C04': dict(cat='translation_validation', ref='4/C04', tech='z3 linear-integer no-wrap query over every logged access of the generated _evaluate (symbolic t, L); symbolic frame check of BaseModel.solve_t on parser-built models; symbolic infeasible-period query; replay on real arrays',
    text='(a) for every enumerated program with lags/leads, every access of the generated code is shown by z3 to address t+k inside the span for ALL t in the model-derived default range (both spellings) and ALL L; (b) full solve_t on parser-built models over symbolic cells: every cell other than (endogenous, t) and status/iterations outside t is z3-equal to its initial value after return or exception; (c) rejected calls leave the whole symbolic state unchanged (C02/C06 joint paths re-run); (d) for a symbolic infeasible t no path of solve_t returns or merely fails to converge.',
    note='Trusted: as C01/C02. Bounds: span length LAGS+LEADS+1..+3 for (b)/(d), max_iter<=2. Fortran engine and verbatim code outside.'),
